@@ -164,7 +164,13 @@ func runC16(r *simkit.Run, c Cfg) {
 				}
 				call.end = r.Step()
 				call.returned = true
-				t.Logf("%s -> %v", rcOpNames[call.op], call.err)
+				if call.op == rcOpNext && m.closed {
+					// select between the buffered message and the
+					// closed signal is a coin the runtime flips
+					t.Logf("Next -> message-or-closed")
+				} else {
+					t.Logf("%s -> %v", rcOpNames[call.op], call.err)
+				}
 			}
 		})
 	}
